@@ -115,6 +115,11 @@ def table_cases(rep, tier, seed):
     combos += [("rewrite", None, None), (["r0.zip", "r2.zip"], True, False), (["r0.zip", "r1.zip"], True, True)]
     import pandas as pd
     est_label = {"r4.zip": "kest.txt", "r0.zip": "est0.txt", "r1.zip": "est1.txt", "r2.zip": "est2.txt", "r3.zip": "est0.txt", "runb/r0.zip": "est0.txt"}
+    # the same result files under other names (upper-case extension, no extension and a blank, a second suffix): rows and labels as before
+    for src, name in (("r1.zip", "res one"), ("r2.zip", "R2.ZIP"), ("r4.zip", "r4.zip.bak")):
+        shutil.copy(os.path.join(d, src), os.path.join(d, name))
+        stats[name], est_label[name] = stats[src], est_label[src]
+    combos += [(["r0.zip", "res one", "R2.ZIP"], False, False), (["res one", "r4.zip.bak", "r2.zip"], True, False), (["R2.ZIP", "res one"], True, False)]
     for n, (fs, usefn, merge) in enumerate(combos):
         if fs == "rewrite":
             shutil.copy(os.path.join(d, "r1.zip"), os.path.join(d, "r0.zip"))
@@ -123,6 +128,8 @@ def table_cases(rep, tier, seed):
             continue
         out = os.path.join(d, "table%d.csv" % n)
         argv = fs + ["--save_table", "table%d.csv" % n, "--no_warnings", "--ignore_title"] + (["--use_filenames"] if usefn else []) + (["--merge"] if merge else [])
+        if n % 3 == 1:          # options before the files
+            argv = argv[len(fs):] + fs
         r = cli.run_cli("res", argv, d)
         if merge:
             labels = [est_label[fs[0]]]       # info of the first result -> label of the merged column
